@@ -29,6 +29,36 @@ func lnHint(x Dec, p int) Dec {
 	return encDec(&d)
 }
 
+// transcN: the iterative functions in NARROW exponent ranges with results near the edges (arguments close to 1 for
+// the logarithms, moderate magnitudes for Exp/Pow/roots): the results must fit the context (C07) and overflow /
+// underflow may be claimed only when real (C12).
+func init() {
+	drivers["transcN"] = func(g *G) {
+		n := g.pick(500, 12000)
+		for i := 0; i < n; i++ {
+			p := g.R.between(1, 9)
+			c := Ctx{P: p, Emin: -g.R.between(0, 6), Emax: g.R.between(p, p+6), R: modeNames[g.R.Intn(8)]}
+			op := []string{"log10", "ln", "exp", "sqrt", "cbrt", "log10", "ln"}[g.R.Intn(7)]
+			var x Dec
+			switch op {
+			case "log10", "ln": // 1 +- tiny: the logarithm is far below 10^Emin
+				k := g.R.between(1, 9)
+				b := new(big.Int).Exp(big.NewInt(10), big.NewInt(int64(k)), nil)
+				b.Add(b, big.NewInt(int64(g.R.between(-9, 9))))
+				x = finDec(false, b, -k)
+				if g.R.Intn(4) == 0 {
+					x = finDec(false, g.R.digits(g.R.between(1, p+2)), g.R.between(-30, 30))
+				}
+			case "exp":
+				x = finDec(g.R.bool(), g.R.digits(g.R.between(1, 3)), g.R.between(-9, 0))
+			default:
+				x = finDec(false, g.R.digits(g.R.between(1, p+3)), g.R.between(-30, 30))
+			}
+			g.emit(mkA(op, c, x, x, 0, "", fresh), "narrow/"+op)
+		}
+	}
+}
+
 func init() {
 	drivers["transc"] = func(g *G) {
 		// fixed witnesses of the recorded finding "Exp reports overflow/underflow beyond |x| > 23*1000" (known_findings.json)
